@@ -368,6 +368,8 @@ def run(ck, ix, tier):
 
     # ---------------------------------------------------------------- (e) ureg.check pairs dimensions with parameters in signature order
     check_wrapper_order_rule(ck, ix)
+    from .. import memo as _memo
+    _memo.rule_quantity_dimensionality_memo(ck, ix)  # the predicates read Quantity.dimensionality
     return EXPLANATION
 
 
